@@ -158,6 +158,8 @@ impl St {
                 },
                 Event::Send { obj } => self.free_receivers.contains(&obj) || self.mirror.chans.get(&obj).map(|c| c.len < c.cap || c.rx_dropped).unwrap_or(true),
                 Event::Recv { obj } => self.mirror.chans.get(&obj).map(|c| c.len > 0 || c.senders == 0).unwrap_or(true),
+                // non-blocking attempts never wait
+                Event::TrySend { .. } | Event::TryRecv { .. } => true,
                 _ => true,
             },
         }
@@ -230,6 +232,13 @@ impl St {
             Event::SenderDropped { obj } => {
                 let c = self.mirror.chans.entry(obj).or_default();
                 c.senders = c.senders.saturating_sub(1);
+            }
+            Event::TryRecvd { obj, some } => {
+                if some {
+                    let c = self.mirror.chans.entry(obj).or_default();
+                    c.len = c.len.saturating_sub(1);
+                    c.received += 1;
+                }
             }
             Event::ReceiverDropped { obj } => {
                 self.mirror.chans.entry(obj).or_default().rx_dropped = true;
